@@ -185,8 +185,11 @@ class _FileInitWith(Generic[_WT]):
                 self._obj = obj = cls.file_open(path)
         else:
             async with cls.write_lock(path):
+                # somebody else may have written it while we were waiting
+                exists = cls.file_exists(path)
                 self._obj = obj = cls.file_open(path)
-                obj.file_write()
+                if not exists:
+                    obj.file_write()
         return obj
 
     async def __aexit__(self, exc_type: Any, exc_val: Any,
